@@ -157,12 +157,11 @@ def withLabels [DecidableEq T] (labs : List T) (ds : DS R T W) : Option (DS R T 
     some { ds with recs := r, tgts := g, weights := w, counts := some (labelCount ds.t g) }
   | _, _, _ => none
 
-/-- distinct labels of a dataset: keys of the (cached or recounted) label maps -/
-def labelsOf [DecidableEq T] (ds : DS R T W) : List T :=
-  let cs := match ds.counts with
-    | some c => c
-    | none => labelCount ds.t ds.tgts
-  (cs.flatten.map (·.1)).eraseDups
+/-- distinct labels of a dataset, as `one_vs_all` collects them: it scans
+`as_single_targets().iter()` and keeps a label the first time it is seen
+(`if !labels.contains(label) { labels.push(..) }`), so the order is that of first
+appearance and a cached label count is not consulted -/
+def labelsOf [DecidableEq T] (ds : DS R T W) : List T := ds.tgts.flatten.eraseDups
 
 /-- `one_vs_all` (single-target datasets): one binary dataset per distinct label -/
 def oneVsAll [DecidableEq T] (ds : DS R T W) : List (T × DS R Bool W) :=
@@ -299,5 +298,37 @@ def runSeq [DecidableEq T] (ofBool : Bool → T) : List (Op T × Nat) → DS R T
     | some outs => match outs[k]? with
       | none => none
       | some d => runSeq ofBool rest d
+
+/-! ### the guard, as the driver evaluates it -/
+
+def inRangeB (idx : List Nat) (n : Nat) : Bool := idx.all (· < n)
+
+/-- Boolean form of `Guard` (Proofs/Dataset.lean; `guardB_iff` in Props/C02.lean): the requests
+for which the property promises a result.  The driver answers `unpromised` exactly when this
+is `false` (or the request's ratio lies outside `[0, 1]`, which an `Op` no longer shows). -/
+def guardB (op : Op T) (ds : DS R T W) : Bool :=
+  match op with
+  | .splitView n1 => decide (n1 ≤ ds.n)
+  | .splitOwned std n1 => std && ds.counts.isNone && decide (n1 ≤ ds.n)
+  | .shuffle idx => inRangeB idx ds.n
+  | .bootstrap ns nf idx fidx =>
+    (ns == 0 || decide (0 < ds.n)) && (nf == 0 || decide (0 < ds.p)) && inRangeB idx ds.n && inRangeB fidx ds.p
+  | .bootstrapSamples ns idx => (ns == 0 || decide (0 < ds.n)) && inRangeB idx ds.n
+  | .bootstrapFeatures nf fidx => (nf == 0 || decide (0 < ds.p)) && inRangeB fidx ds.p
+  | .intoSingleTarget => ds.t == 1
+  | .sampleChunks size => decide (0 < size)
+  | .withLabels _ => ds.weights.length == 0 || decide (ds.n ≤ ds.weights.length)
+  | _ => true
+
+/-- the datasets of every step of a history (what the driver prints), next to where it ends:
+the same recursion as `runSeq` with the intermediate results kept (`runTrace_final` in Props/C02.lean) -/
+def runTrace [DecidableEq T] (ofBool : Bool → T) : List (Op T × Nat) → DS R T W → List (List (DS R T W)) × Option (DS R T W)
+  | [], ds => ([], some ds)
+  | (op, k) :: rest, ds =>
+    match apply ofBool op ds with
+    | none => ([], none)
+    | some outs => match outs[k]? with
+      | none => ([outs], none)
+      | some d => let r := runTrace ofBool rest d; (outs :: r.1, r.2)
 
 end LinfaSpec.Dataset
